@@ -679,6 +679,10 @@ class TensorDiagram:
             if source_index is None:
                 source_index = len(self._nodes)
                 free_source = self.add_node(source)[0]
+                if target is source:
+                    # an edge from a new node to itself contracts two of its own indices
+                    target_index = source_index
+                    free_target = self._unused_indices[source_index][1]
 
             if target_index is None:
                 target_index = len(self._nodes)
